@@ -22,6 +22,11 @@ Oracle  : p = t.pseudoinverse():  p(t(X)) == X and t(p(X')) == X' on probe point
           alignments: source/target exchanged exactly and p.h_matrix . t.h_matrix == I, warps: every target landmark is
           sent back onto its source landmark, the TPS inverse equals the spline fitted in the reverse direction and its
           kernel is centred on its own source, has_true_inverse is a constant of the class, the receiver is unchanged.
+          Independence: every inverse that was returned (by 'pinv', by a warm retarget, before every in-place
+          composition) and every original whose inverse became the current object stay alive in the state with their
+          observation; after every later operation on a relative (set_target, compose in place, another pseudoinverse)
+          each of them must be observed unchanged and still be the map it was (an inverse: the exact inverse of the
+          map its original had when it was taken).
           Chaining 'pinv' (depth >= 2) checks the inverse of the inverse against the ORIGINAL reference map.
 """
 import numpy as np
@@ -493,7 +498,7 @@ class C04(Check):
     # ------------------------------------------------------------------ state
     def build(self, root):
         fam = root[0]
-        st = {"fam": fam, "root": root, "n_inv": 0, "n_ret": 0, "n_comp": 0, "info": {}}
+        st = {"fam": fam, "root": root, "n_inv": 0, "n_ret": 0, "n_comp": 0, "info": {}, "kept": []}
         if fam == "H":
             t, H, info = self._build_plain(root)
             st.update(t=t, cls=root[1], d=int(root[2]), H=H, info=info)
@@ -700,6 +705,7 @@ class C04(Check):
         fam, cls = st["fam"], st["cls"]
         lvl = "pinv" if st["n_inv"] == 0 else "pinv-of-inverse"
         if not verify:
+            self._keep(st, t, self._model_of(st), "original")
             st["t"] = t.pseudoinverse()
             self._swap_model(st)
             return []
@@ -822,6 +828,12 @@ class C04(Check):
                 bad("kernel-centres", "the kernel of the inverse is not centred on the source points of the inverse")
         if fails:
             return fails
+        # taking one more inverse must not disturb anything that was returned / inverted earlier
+        fails.extend(self._check_kept(st, "pseudoinverse()"))
+        if fails:
+            return fails
+        # from now on the receiver is watched: later operations on its inverse must leave it alone
+        self._keep(st, t, self._model_of(st), "original")
         self.note("%s:%s" % (lvl, fam))
         if st["n_ret"]:
             self.note("pinv-after-retarget:%s" % fam)
@@ -829,6 +841,49 @@ class C04(Check):
             self.note("pinv-after-compose:%s" % fam)
         st["t"] = p
         self._swap_model(st)
+        return fails
+
+    # ------------------------------------------------------------------ relatives that must stay what they were
+    MODEL_KEYS = ("fam", "cls", "d", "root", "H", "Hinv", "cond", "src", "tgt", "trilist", "kern", "scale", "msv")
+
+    def _model_of(self, st, inverse=False):
+        """frozen copy of the reference model of the current object (or of its inverse)"""
+        m = {k: (np.array(st[k], copy=True) if isinstance(st[k], np.ndarray) else st[k]) for k in self.MODEL_KEYS if k in st}
+        if inverse:
+            if "H" in m:
+                m["H"], m["Hinv"] = m["Hinv"], m["H"]
+            if "src" in m:
+                m["src"], m["tgt"] = m["tgt"], m["src"]
+        return m
+
+    def _keep(self, st, obj, model, label):
+        """remember a transform (an inverse that was returned, or an original whose inverse is now the current object)
+        with its observation at this moment: every later operation on its relative must leave it exactly as it is"""
+        st["kept"].append({"obj": obj, "obs": observe(obj), "model": model, "label": label})
+
+    def _check_kept(self, st, what):
+        fails = []
+        for i, k in enumerate(st["kept"]):
+            m = k["model"]
+            label = k["label"]
+            clause = "earlier-inverse-changed-by-later-operation" if label == "inverse" else "original-changed-by-operation-on-its-inverse"
+            dd = obs_diff(k["obs"], observe(k["obj"]))
+            if dd is not None:
+                fails.append(Failure(st["cls"], clause, "%s on a relative changed the %s #%d (a %s) of root %r: %s" % (what, label, i, type(k["obj"]).__name__, st["root"], dd)))
+                continue
+            # and it is still the map it was when it was returned (for an inverse: the exact inverse of the map
+            # the original had at that time)
+            if m["fam"] == "TPS":
+                X = self._tps_points(m)
+                ok, e = _close("kept-tps", k["obj"].apply(X.copy()), tps_fit(m["src"], m["tgt"], m["kern"])(X), RTOL_TPS * m["scale"])
+            else:
+                X, Y = self._probes(m, "fwd")
+                res = self._try_apply(k["obj"], X)
+                ok, e = (False, res) if isinstance(res, str) else _close("kept-map", res, Y, self._map_tol(m, X, Y))
+            if not ok:
+                fails.append(Failure(st["cls"], clause, "after %s the %s #%d of root %r is no longer the map it was when it was returned: %s" % (what, label, i, st["root"], e)))
+            else:
+                self.note("kept-%s:intact" % label)
         return fails
 
     @staticmethod
@@ -873,7 +928,7 @@ class C04(Check):
         else:
             raise HarnessError("retarget guard cannot be satisfied for %r" % (st["root"],))
         if len(op) > 2 and op[2] == "warm":
-            t.pseudoinverse()
+            self._keep(st, t.pseudoinverse(), self._model_of(st, inverse=True), "inverse")
             st["warm"] = True
         t.set_target(PointCloud(new.copy()))
         st["tgt"] = new
@@ -883,6 +938,7 @@ class C04(Check):
         fails = []
         if verify:
             fails = self.check_root(st, st["root"])  # the live object still follows the model
+            fails.extend(self._check_kept(st, "set_target()"))
             self.note("retarget-%s:%s" % (op[2] if len(op) > 2 else "cold", st["fam"]))
         return fails
 
@@ -921,6 +977,8 @@ class C04(Check):
         side, name = op[1], op[2]
         t = st["t"]
         arg, HA = self._operand(st["d"], name)
+        # the inverse taken just before the matrix is composed in place must stay the inverse of the OLD map
+        self._keep(st, t.pseudoinverse(), self._model_of(st, inverse=True), "inverse")
         try:
             getattr(t, "compose_%s_inplace" % side)(arg)
             accepted = True
@@ -941,7 +999,7 @@ class C04(Check):
         ok, e = _close("compose-map", t.apply(X.copy()), Y, self._map_tol(st, X, Y))
         if not ok:
             return [Failure(st["cls"], "input-map-differs-from-model", "after compose_%s_inplace(%s) [%s] on %r: max error %.3g" % (side, name, "accepted" if accepted else "refused", st["root"], e))]
-        return []
+        return self._check_kept(st, "compose_%s_inplace(%s)" % (side, name))
 
     def _op_pinv_vec(self, st):
         """VInvertible.pseudoinverse_vector(v): the parameter vector of the inverse of from_vector(v)"""
@@ -1007,6 +1065,8 @@ class C04(Check):
             "pinv-after-retarget:A",
             "pinv-after-retarget:PWA",
             "pinv-after-retarget:TPS",
+            "kept-inverse:intact",
+            "kept-original:intact",
             "honesty:asked",
             "compose:accepted",
             "compose:refused",
